@@ -58,12 +58,25 @@ func mapToken(m map[int]int) string {
 }
 
 type c14DB struct {
-	path string
-	p    persistence.Persistence
+	path  string
+	p     persistence.Persistence
+	idset int
 }
 
+// the model's fan ids a, b, c stand for concrete ids that are as confusable as a configuration allows:
+// proper prefixes of each other, differing only in case, or containing separators and blanks
+var c14IdSets = []map[string]string{
+	{"a": "fan1", "b": "fan10", "c": "fan"},
+	{"a": "a", "b": "b", "c": "c"},
+	{"a": "cpu:0", "b": "CPU:0", "c": "cpu:00"},
+	{"a": "case fan/1", "b": "case fan", "c": "case fan/1/"},
+	{"a": "f", "b": "f\x00", "c": "f.pwmMap"},
+}
+
+func (d *c14DB) real(id string) string { return c14IdSets[d.idset%len(c14IdSets)][id] }
+
 func (d *c14DB) fan(id string, data map[int]float64) fans.Fan {
-	f := &fans.HwMonFan{Config: configuration.FanConfig{ID: id}}
+	f := &fans.HwMonFan{Config: configuration.FanConfig{ID: d.real(id)}}
 	if data != nil {
 		cp := map[int]float64{}
 		for k, v := range data {
@@ -82,7 +95,7 @@ func (d *c14DB) save(kind, id, tok string) error {
 	for k, v := range c14Maps[tok] {
 		cp[k] = v
 	}
-	return d.p.SaveFanPwmMap(id, cp)
+	return d.p.SaveFanPwmMap(d.real(id), cp)
 }
 
 // load returns (res, got): found / notfound / discarded / error
@@ -100,7 +113,7 @@ func (d *c14DB) load(kind, id string) (string, string) {
 			return "error", err.Error()
 		}
 	}
-	m, err := d.p.LoadFanPwmMap(id)
+	m, err := d.p.LoadFanPwmMap(d.real(id))
 	switch {
 	case err == nil && m == nil:
 		return "discarded", ""
@@ -117,11 +130,12 @@ func (d *c14DB) del(kind, id string) error {
 	if kind == "data" {
 		return d.p.DeleteFanPwmData(d.fan(id, nil))
 	}
-	return d.p.DeleteFanPwmMap(id)
+	return d.p.DeleteFanPwmMap(d.real(id))
 }
 
 // damage overwrites the stored bytes of an entry with something that cannot be decoded
 func (d *c14DB) damage(kind, id string) bool {
+	id = d.real(id)
 	db, err := bolt.Open(d.path, 0600, &bolt.Options{Timeout: time.Second})
 	must(err)
 	defer db.Close()
@@ -180,7 +194,7 @@ func TestDriveC14(t *testing.T) {
 	}
 	for i := 0; i < n; i++ {
 		dir := scratchDir("verif.c14.")
-		d := &c14DB{path: filepath.Join(dir, "sub", "fan2go.db")}
+		d := &c14DB{path: filepath.Join(dir, "sub", "fan2go.db"), idset: i}
 		d.p = persistence.NewPersistence(d.path)
 		must(d.p.Init())
 		rec.NextTrace()
@@ -212,7 +226,7 @@ func TestDriveC14(t *testing.T) {
 	// crash points: a worker process saves in a loop and is killed with SIGKILL at a random moment
 	for i := 0; i < kills; i++ {
 		dir := scratchDir("verif.c14k.")
-		d := &c14DB{path: filepath.Join(dir, "fan2go.db")}
+		d := &c14DB{path: filepath.Join(dir, "fan2go.db"), idset: i}
 		d.p = persistence.NewPersistence(d.path)
 		must(d.p.Init())
 		rec.NextTrace()
@@ -229,7 +243,7 @@ func TestDriveC14(t *testing.T) {
 		// the worker announces every save on its stdout before starting it and confirms it afterwards
 		self, _ := os.Executable()
 		cmd := exec.Command(self, "-test.run", "^TestDriveC14$")
-		cmd.Env = append(os.Environ(), "VERIF_C14_WORKER="+d.path, fmt.Sprintf("VERIF_C14_WSEED=%d", r.Int63()))
+		cmd.Env = append(os.Environ(), "VERIF_C14_WORKER="+d.path, fmt.Sprintf("VERIF_C14_WSEED=%d", r.Int63()), fmt.Sprintf("VERIF_C14_IDSET=%d", d.idset))
 		stdout, err := cmd.StdoutPipe()
 		must(err)
 		must(cmd.Start())
@@ -279,7 +293,7 @@ func TestDriveC14(t *testing.T) {
 // c14Worker saves random entries forever, announcing every save; it is killed by the parent.
 func c14Worker() {
 	path := os.Getenv("VERIF_C14_WORKER")
-	d := &c14DB{path: path, p: persistence.NewPersistence(path)}
+	d := &c14DB{path: path, p: persistence.NewPersistence(path), idset: envInt("VERIF_C14_IDSET", 0)}
 	seed := int64(envInt("VERIF_C14_WSEED", 1))
 	r := rand.New(rand.NewSource(seed))
 	w := bufio.NewWriter(os.Stdout)
@@ -331,7 +345,7 @@ func TestReplayC14(t *testing.T) {
 		var ops []map[string]string
 		must(json.Unmarshal(sc.Bytes(), &ops))
 		dir := scratchDir("verif.c14r.")
-		d := &c14DB{path: filepath.Join(dir, "fan2go.db")}
+		d := &c14DB{path: filepath.Join(dir, "fan2go.db"), idset: n}
 		d.p = persistence.NewPersistence(d.path)
 		must(d.p.Init())
 		rec.NextTrace()
